@@ -183,7 +183,9 @@ ApplyAllowed(i, b) ==
     [] i.op = "cancel"   -> Live(i.s) /\ Commit(CancelFx(Cur, i.s, i.req, i.o.mode))
     [] i.op = "yield"    -> Live(i.s) /\ Commit(YieldFx(Cur, i.s, i.id, i.o.prog, i.o.ppt, i.tag))
     [] i.op = "inverror" -> Live(i.s) /\ Commit(InvErrorFx(Cur, i.s, i.id, i.o.err, i.tag))
-    [] i.op = "leave"    -> Live(i.s) /\ Commit(LeaveFx(Cur, i.s, i.how, ""))
+    \* (a session that had stopped reading when it was killed cannot know that it is gone: when its
+    \* peer finally hangs up nothing more happens)
+    [] i.op = "leave"    -> IF Live(i.s) THEN Commit(LeaveFx(Cur, i.s, i.how, "")) ELSE Commit(Cur)
     [] i.op = "advance"  -> Commit(AdvanceFx(Cur, i.ms))
     [] i.op = "stall"    -> Live(i.s) /\ Commit(StallFx(Cur, i.s))
     [] i.op = "resume"   -> Live(i.s) /\ Commit(ResumeFx(Cur, i.s))
@@ -263,7 +265,7 @@ TrJoinClosed ==
 Blur(m) == m
 
 \* the orders C08 states, over what one session received (q), given what it held before
-OrdOK(q, heldSubs, heldRegs) ==
+OrdRel(q) ==
   /\ \A i, j \in DOMAIN q : i < j =>
         \* events of one publisher on one topic via one subscription: publication order
         /\ (q[i].k = "EVENT" /\ q[j].k = "EVENT" /\ q[i].a = q[j].a /\ q[i].y = q[j].y /\ q[i].y # 0 /\ q[i].v = q[j].v)
@@ -274,6 +276,7 @@ OrdOK(q, heldSubs, heldRegs) ==
         \* progressive results in yield order, nothing after the final one
         /\ (q[i].k = "RESULT" /\ q[j].k = "RESULT" /\ q[i].req = q[j].req)
               => (<<"progress", "true">> \in q[i].d /\ q[i].x < q[j].x)
+OrdHeld(q, heldSubs, heldRegs) ==
   /\ \A i \in DOMAIN q :
         \* an EVENT only while the subscription is held: after SUBSCRIBED, not after UNSUBSCRIBED
         /\ (q[i].k = "EVENT" /\ ~IsWampURI(q[i].v)) =>
@@ -285,6 +288,8 @@ OrdOK(q, heldSubs, heldRegs) ==
               IN IF ctl = {} THEN q[i].a \in heldRegs
                  ELSE q[CHOOSE h \in ctl : \A h2 \in ctl : h2 <= h].k = "REGISTERED"
 
+OrdOK(q, heldSubs, heldRegs) == OrdRel(q) /\ OrdHeld(q, heldSubs, heldRegs)
+
 HeldSubs(s) == {subs[k].id : k \in {kk \in DOMAIN subs : s \in subs[kk].members}}
 HeldRegs(s) == {regs[k].id : k \in {kk \in DOMAIN regs : s \in Rng(regs[kk].callees)}}
 
@@ -293,7 +298,9 @@ TrBurst ==
   /\ LET r == TraceLog[l] IN
        /\ r.in.op = "burst"
        /\ now' = r.now
-       /\ \A s \in DOMAIN sess : OrdOK(LoggedFor(r, s), HeldSubs(s), HeldRegs(s))
+       \* (a session whose queue is smaller than a burst may lose a SUBSCRIBED or REGISTERED of the burst itself:
+       \* for it only the relative orders of what did arrive are decided)
+       /\ \A s \in DOMAIN sess : IF sess[s].cap < 8 THEN OrdRel(LoggedFor(r, s)) ELSE OrdOK(LoggedFor(r, s), HeldSubs(s), HeldRegs(s))
        /\ IF r.in.how = "pub"
           THEN LET S1 == PubAllFx(Cur, FlatProg(r.in.prog, 1))
                    o  == Deliver(Settle(S1))
@@ -314,8 +321,9 @@ TrBurst ==
                /\ Len(q) = r.in.id + 1
                /\ \A j \in DOMAIN q : q[j].x = j
                /\ (l + 1 > Len(TraceLog) \/ TraceLog[l + 1].ev = "reset")
-          ELSE \* mixed burst: only the orders are decided; the scenario ends here (with a sign of life)
-               /\ Commit(Cur)
+          ELSE \* mixed burst: only the orders are decided; the scenario ends here (with a sign of life).
+               \* (Time may have passed: a call of the burst that reached a callee which does not answer.)
+               /\ Commit([Cur EXCEPT !.now = r.now])
                /\ (l + 1 > Len(TraceLog) \/ TraceLog[l + 1].ev = "reset" \/ TraceLog[l + 1].in.op = "alive")
 
 \* C07: whatever the concurrent programs did, the router still serves: a session that
